@@ -98,6 +98,10 @@ func applyFn(id int) dataframe.FuncType {
 			return nil
 		case 9:
 			return x // hands back its own argument slice
+		case 10:
+			return append([]any{}, x[:len(x)/2]...) // a shorter slice
+		case 11:
+			return append(append([]any{}, x...), "k") // a longer slice
 		default:
 			out := make([]any, len(x))
 			for i, v := range x {
